@@ -9,3 +9,4 @@ INFO = {'not_decided': ['that the child process stays alive / is scheduled (OS)'
         'stated_lemmas': ['induction on the request sequence with the channel assumption: reply k pairs with request k; a failing request leaves the '
                           'loop state and self.project unchanged'],
         'trusted': ['multiprocessing.connection: reliable, ordered, message-preserving duplex channel; recv_bytes raises EOFError when the peer is gone']}
+import props._all  # noqa
